@@ -572,6 +572,13 @@ Proof.
   destruct (name_eqb n (name_of p j)); [discriminate|auto].
 Qed.
 
+Lemma find_chain_no_errV p e n attrs : find_chain p e n attrs <> ErrV.
+Proof.
+  induction attrs as [|a attrs IH]; simpl; [discriminate|].
+  destruct (assoc_get a (e_attrs e)) as [[ids|?| |]|]; auto; try discriminate.
+  destruct (find_in p n ids); [discriminate|auto].
+Qed.
+
 Lemma find_children_spec p e n :
   ent_ok e ->
   match find_children p e n with
@@ -581,12 +588,11 @@ Lemma find_children_spec p e n :
   | ErrT => False
   end.
 Proof.
-  intros [Hs Hc]. pose proof (find_children_no_errT p e n Hs) as NE.
-  unfold find_children in *.
-  destruct (find_chain p e n children_attrs) as [i| | |] eqn:F1; try congruence.
+  intros [Hs Hc]. unfold find_children.
+  destruct (find_chain p e n children_attrs) as [i| | |] eqn:F1.
   - apply find_chain_found in F1 as (a & ids & H1 & H2 & H3). split; auto.
     apply in_contents. exists a, (AList ids). auto.
-  - destruct (find_singles p e n non_list_children) as [i| | |] eqn:F2; try congruence.
+  - destruct (find_singles p e n non_list_children) as [i| | |] eqn:F2.
     + apply find_singles_found in F2 as (a & H1 & H2). split; auto.
       apply in_contents. exists a, (ASingle i). split; auto. now left.
     + intros i Hi. apply in_contents in Hi as (a & v & Hav & Hiv).
@@ -605,10 +611,321 @@ Proof.
            destruct v as [ids|j| |]; try discriminate Hs; [|destruct Hiv].
            destruct Hiv as [<-|[]].
            eapply find_singles_notfound; eauto. now apply str_in_In.
-        -- simpl in Hc. destruct v as [[|? ?]|?| |]; try discriminate Hc; destruct Hiv.
-    + eapply find_singles_no_errV; eauto.
-  - clear NE. revert F1. generalize children_attrs as attrs.
-    induction attrs as [|a attrs IH]; simpl; [discriminate|].
-    destruct (assoc_get a (e_attrs e)) as [[ids|?| |]|]; auto; try discriminate.
-    destruct (find_in p n ids); [discriminate|auto].
+        -- cbn [orb] in Hc. destruct v as [[|? ?]|?| |]; try discriminate Hc; destruct Hiv.
+    + exact (find_singles_no_errV _ _ _ _ F2).
+    + exact (find_singles_no_errT _ _ _ _ F2).
+  - exact (find_chain_no_errV _ _ _ _ F1).
+  - refine (find_chain_no_errT p e n children_attrs Hs _ F1).
+    intros a H. now apply str_in_In.
+Qed.
+
+Lemma filter_nil {A} (f : A -> bool) l : (forall x, In x l -> f x = false) -> filter f l = [].
+Proof.
+  induction l as [|x l IH]; simpl; intros H; auto.
+  rewrite (H x) by auto. apply IH. auto.
+Qed.
+
+Lemma get_ent_in p i e : get_ent p i = Some e -> In e (p_ents p) /\ i < length (p_ents p).
+Proof.
+  unfold get_ent. intros H. split; [eapply nth_error_In; eauto|].
+  apply nth_error_Some. congruence.
+Qed.
+
+Lemma has_url_lt p i : urls_ok p = true -> i < length (p_ents p) -> has_url p i = true.
+Proof.
+  intros U L. unfold has_url, get_ent.
+  destruct (nth_error (p_ents p) i) as [e|] eqn:N.
+  - unfold urls_ok in U. rewrite forallb_forall in U. apply U. eapply nth_error_In; eauto.
+  - apply nth_error_None in N. lia.
+Qed.
+
+Lemma contents_lt p e i :
+  ids_ok p = true -> In e (p_ents p) -> In i (contents e) -> i < length (p_ents p).
+Proof.
+  unfold ids_ok. intros H He Hi. apply andb_true_iff in H as [H _].
+  rewrite forallb_forall in H. specialize (H _ He). rewrite forallb_forall in H.
+  apply Nat.ltb_lt. auto.
+Qed.
+
+Lemma col_lt p c i : ids_ok p = true -> In i (col_ids p c) -> i < length (p_ents p).
+Proof.
+  unfold ids_ok, col_ids. intros H Hi. apply andb_true_iff in H as [_ H].
+  destruct (assoc_get c (p_cols p)) as [l|] eqn:A; [|destruct Hi].
+  apply assoc_get_In in A. rewrite forallb_forall in H. specialize (H _ A).
+  cbn [snd] in H. rewrite forallb_forall in H. apply Nat.ltb_lt. auto.
+Qed.
+
+Lemma matching_in p n ids i :
+  In i (matching p n ids) <-> In i ids /\ name_eqb n (name_of p i) = true /\ has_url p i = true.
+Proof. unfold matching. rewrite filter_In, andb_true_iff. tauto. Qed.
+
+Lemma contents_of_in e attrs i :
+  In i (contents_of e attrs) ->
+  exists a v, In a attrs /\ assoc_get a (e_attrs e) = Some v /\ In i (aval_ids v).
+Proof.
+  unfold contents_of. rewrite in_flat_map. intros (a & Ha & Hi).
+  destruct (assoc_get a (e_attrs e)) as [v|] eqn:A; [|destruct Hi]. eauto.
+Qed.
+
+Lemma contents_of_sub e attrs i : In i (contents_of e attrs) -> In i (contents e).
+Proof.
+  intros H. apply contents_of_in in H as (a & v & _ & A & Hi).
+  apply in_contents. exists a, v. split; auto. now apply assoc_get_In.
+Qed.
+
+(* the two kind words that mean the same in the item table and in the component table *)
+Lemma same_kind_facts k :
+  kind_same_in_scope (Some k) = true ->
+  exists a, str_in a children_attrs = true /\
+            assoc_get (lower k) sublink_types = Some a /\ comp_kind k = Some a /\
+            scope_attrs k a = [a].
+Proof.
+  unfold kind_same_in_scope. intros H. apply orb_true_iff in H as [H|H];
+    apply str_eqb_eq in H; unfold comp_kind, scope_attrs; rewrite H.
+  - exists (s "types"). repeat split; reflexivity.
+  - exists (s "absinterfaces"). repeat split; reflexivity.
+Qed.
+
+Lemma scope_level p c e n k :
+  get_ent p c = Some e -> ent_ok e -> urls_ok p = true -> ids_ok p = true ->
+  kind_same_in_scope k = true ->
+  match find_child_quiet p c n k with
+  | Found i => In i (scope_cands p c n k)
+  | NotFound => scope_cands p c n k = []
+  | _ => False
+  end.
+Proof.
+  intros G Hok U I K. pose proof (get_ent_in _ _ _ G) as [Hin _].
+  unfold find_child_quiet, find_child, scope_cands. rewrite G.
+  destruct k as [k|].
+  - destruct (same_kind_facts k K) as (a & Ca & S1 & S2 & S3). rewrite S1, S2, S3.
+    destruct Hok as [Hs Hc].
+    destruct (assoc_get a (e_attrs e)) as [v|] eqn:A.
+    + pose proof (shapes_list e a v Hs (assoc_get_In _ _ _ A) Ca) as L.
+      destruct v as [ids|?| |]; try discriminate L.
+      * destruct (find_in p n ids) as [i|] eqn:F.
+        -- apply find_in_some in F as [F1 F2]. apply matching_in.
+           assert (Hi : In i (contents_of e [a])) by (unfold contents_of; simpl; rewrite A; simpl; rewrite app_nil_r; exact F1).
+           split; auto. split; auto. apply has_url_lt; auto.
+           eapply contents_lt; eauto. eapply contents_of_sub; eauto.
+        -- apply filter_nil. intros i Hi. apply contents_of_in in Hi as (a' & v' & [<-|[]] & A' & Hi).
+           rewrite A in A'. injection A' as <-. simpl in Hi.
+           rewrite (find_in_none _ _ _ F i Hi). reflexivity.
+      * apply filter_nil. intros i Hi. apply contents_of_in in Hi as (a' & v' & [<-|[]] & A' & Hi).
+        rewrite A in A'. injection A' as <-. destruct Hi.
+    + apply filter_nil. intros i Hi. apply contents_of_in in Hi as (a' & v' & [<-|[]] & A' & Hi).
+      congruence.
+  - pose proof (find_children_spec p e n Hok) as FS.
+    destruct (find_children p e n) as [i| | |]; try contradiction.
+    + destruct FS as [F1 F2]. apply matching_in. split; auto. split; auto.
+      apply has_url_lt; auto. eapply contents_lt; eauto.
+    + apply filter_nil. intros i Hi. now rewrite (FS i Hi).
+Qed.
+
+Lemma in_all_doc_collections c :
+  In c all_doc_collections <-> In c (map snd link_types).
+Proof.
+  split; intros H.
+  - assert (A : forallb (fun x => str_in x (map snd link_types)) all_doc_collections = true)
+      by (vm_compute; reflexivity).
+    rewrite forallb_forall in A. now apply str_in_In, A.
+  - assert (A : forallb (fun x => str_in x all_doc_collections) (map snd link_types) = true)
+      by (vm_compute; reflexivity).
+    rewrite forallb_forall in A. now apply str_in_In, A.
+Qed.
+
+Lemma project_level p n k :
+  urls_ok p = true -> ids_ok p = true -> kind_documented k = true ->
+  match project_find p n k None None with
+  | Found i => In i (project_cands p n k)
+  | NotFound => project_cands p n k = []
+  | _ => False
+  end.
+Proof.
+  intros U I K. unfold project_find, project_cands.
+  destruct k as [k|].
+  - rewrite <- comp_kind_table. unfold kind_documented in K.
+    destruct (comp_kind k) as [c|]; [|discriminate].
+    destruct (find_in p n (col_ids p c)) as [i|] eqn:F.
+    + apply find_in_some in F as [F1 F2]. apply matching_in. split; auto. split; auto.
+      apply has_url_lt; auto. eapply col_lt; eauto.
+    + apply filter_nil. intros i Hi. now rewrite (find_in_none _ _ _ F i Hi).
+  - destruct (find_in p n (flat_map (fun kc => col_ids p (snd kc)) link_types)) as [i|] eqn:F.
+    + apply find_in_some in F as [F1 F2]. apply in_flat_map in F1 as ([k c] & H1 & H2).
+      cbn [snd] in H2. apply matching_in. split; [|split; auto].
+      * apply in_flat_map. exists c. split; auto. apply in_all_doc_collections.
+        apply (in_map snd) in H1. exact H1.
+      * apply has_url_lt; auto. eapply col_lt; eauto.
+    + apply filter_nil. intros i Hi. apply in_flat_map in Hi as (c & Hc & Hi).
+      apply in_all_doc_collections, in_map_iff in Hc as ([k c'] & E & Hkc). cbn [snd] in E. subst c'.
+      rewrite (find_in_none _ _ _ F i); auto.
+      apply in_flat_map. exists (k, c). auto.
+Qed.
+
+Lemma finish_cand p i : has_url p i = true -> finish p (Found i) = RLink i.
+Proof.
+  unfold has_url, finish. destruct (get_ent p i) as [e|]; [|discriminate]. now intros ->.
+Qed.
+
+Lemma nat_in_In i l : In i l -> nat_in i l = true.
+Proof.
+  intros H. unfold nat_in. apply existsb_exists. exists i. split; auto. apply Nat.eqb_refl.
+Qed.
+
+Definition ctx_ok (p : proj) (ctx : option nat) : Prop :=
+  match ctx with
+  | None => True
+  | Some c =>
+    exists e, get_ent p c = Some e /\ ent_ok e /\
+              match e_parent e with
+              | Some par => exists e', get_ent p par = Some e' /\ ent_ok e'
+              | None => True
+              end
+  end.
+
+(* the shape of an accepted answer for a reference without item part *)
+Definition accepted_simple (cs : list nat) (res : result) : bool :=
+  match cs, res with
+  | [], RPlain => true
+  | _ :: _, RLink i => nat_in i cs
+  | _, _ => false
+  end.
+
+Lemma spec_accepts_simple p ctx r res :
+  r_child r = None -> r_ckind r = None -> kind_documented (r_kind r) = true ->
+  spec_accepts p ctx r res = accepted_simple (comp_cands p ctx r) res.
+Proof.
+  intros Hc Hck K. unfold spec_accepts. rewrite K, Hck, Hc. reflexivity.
+Qed.
+
+Lemma cands_link l i : In i l -> accepted_simple l (RLink i) = true.
+Proof. intros H. destruct l; [destruct H|]. unfold accepted_simple. now apply nat_in_In. Qed.
+
+Lemma scope_cands_url p c n k i : In i (scope_cands p c n k) -> has_url p i = true.
+Proof.
+  unfold scope_cands. destruct (get_ent p c); [|intros []].
+  destruct k as [k|]; [destruct (comp_kind k); [|intros []]|]; intros H; now apply matching_in in H.
+Qed.
+Lemma project_cands_url p n k i : In i (project_cands p n k) -> has_url p i = true.
+Proof.
+  unfold project_cands.
+  destruct k as [k|]; [destruct (comp_kind k); [|intros []]|]; intros H; now apply matching_in in H.
+Qed.
+
+(* C11_lookup_order: outside the region of the known finding, a reference without item part is
+   rendered as the Spec demands: a link into the first of the three levels (contents of the
+   context, of its parent, the whole project) that has a match, plain text if none has *)
+Theorem lookup_order p ctx r :
+  r_child r = None -> r_ckind r = None -> kind_documented (r_kind r) = true ->
+  region_kind_scope ctx r = false ->
+  ctx_ok p ctx -> urls_ok p = true -> ids_ok p = true ->
+  spec_accepts p ctx r (convert_link p ctx r) = true.
+Proof.
+  intros Hc Hck K R Hctx U I.
+  rewrite spec_accepts_simple by auto.
+  unfold comp_cands, convert_link, ctx_step, project_step. rewrite Hc.
+  pose proof (project_level p (r_name r) (r_kind r) U I K) as PL.
+  assert (Proj : forall pre, (forall l, In l pre -> l = []) ->
+            accepted_simple (first_nonempty (pre ++ [project_cands p (r_name r) (r_kind r)]))
+              match project_find p (r_name r) (r_kind r) None None with
+              | Found i => finish p (Found i)
+              | NotFound => RPlain
+              | _ => RErr
+              end = true).
+  { intros pre Hpre.
+    assert (E : first_nonempty (pre ++ [project_cands p (r_name r) (r_kind r)])
+                = project_cands p (r_name r) (r_kind r)).
+    { induction pre as [|l pre IH]; simpl.
+      - destruct (project_cands p (r_name r) (r_kind r)); reflexivity.
+      - rewrite (Hpre l (or_introl eq_refl)). apply IH. intros; apply Hpre; now right. }
+    rewrite E.
+    destruct (project_find p (r_name r) (r_kind r) None None) as [i| | |]; try contradiction.
+    - rewrite (finish_cand p i (project_cands_url _ _ _ _ PL)). now apply cands_link.
+    - now rewrite PL. }
+  destruct ctx as [c|].
+  - unfold region_kind_scope in R. apply negb_false_iff in R.
+    destruct Hctx as (e & G & Hok & Hpar).
+    unfold levels, scope_find. rewrite G.
+    pose proof (scope_level p c e (r_name r) (r_kind r) G Hok U I R) as L1.
+    destruct (find_child_quiet p c (r_name r) (r_kind r)) as [i| | |]; try contradiction.
+    + rewrite (finish_cand p i (scope_cands_url _ _ _ _ _ L1)).
+      cbn [first_nonempty app].
+      destruct (scope_cands p c (r_name r) (r_kind r)) eqn:S; [destruct L1|].
+      unfold accepted_simple. now apply nat_in_In.
+    + destruct (e_parent e) as [par|].
+      * destruct Hpar as (e' & G' & Hok').
+        pose proof (scope_level p par e' (r_name r) (r_kind r) G' Hok' U I R) as L2.
+        destruct (find_child_quiet p par (r_name r) (r_kind r)) as [i| | |]; try contradiction.
+        -- rewrite (finish_cand p i (scope_cands_url _ _ _ _ _ L2)).
+           cbn [first_nonempty app]. rewrite L1.
+           destruct (scope_cands p par (r_name r) (r_kind r)) eqn:S; [destruct L2|].
+           unfold accepted_simple. now apply nat_in_In.
+        -- apply (Proj [scope_cands p c (r_name r) (r_kind r); scope_cands p par (r_name r) (r_kind r)]).
+           intros l [<-|[<-|[]]]; auto.
+      * apply (Proj [scope_cands p c (r_name r) (r_kind r)]). intros l [<-|[]]; auto.
+  - apply (Proj []). intros l [].
+Qed.
+
+(* refutations: the regions of the known findings *)
+Definition w_proj : proj :=
+  {| p_ents :=
+       [ {| e_name := s "m"; e_attrs := [(s "subroutines", AList [1]); (s "functions", AList [])];
+            e_parent := None; e_has_url := true |};
+         {| e_name := s "reset"; e_attrs := [(s "args", AList [])]; e_parent := Some 0;
+            e_has_url := true |};
+         {| e_name := s "reset"; e_attrs := [(s "args", AList [])]; e_parent := None;
+            e_has_url := true |} ];
+     p_cols := [(s "modules", [0]); (s "procedures", [2; 1])] |}.
+Definition w_ref : ref :=
+  {| r_name := s "reset"; r_kind := Some (s "proc"); r_child := None; r_ckind := None |}.
+
+(* [[reset(proc)]] in the documentation of m's own subroutine reset leads to the other reset *)
+Lemma lookup_order_refuted :
+  exists p ctx r, r_child r = None /\ r_ckind r = None /\ kind_documented (r_kind r) = true /\
+    ctx_ok p ctx /\ urls_ok p = true /\ ids_ok p = true /\
+    region_kind_scope ctx r = true /\
+    convert_link p ctx r = RLink 2 /\ comp_cands p ctx r = [1] /\
+    spec_accepts p ctx r (convert_link p ctx r) = false /\
+    convert_link p ctx {| r_name := s "reset"; r_kind := None; r_child := None; r_ckind := None |}
+    = RLink 1.
+Proof.
+  exists w_proj, (Some 1), w_ref. repeat split; try reflexivity.
+  exists (nth 1 (p_ents w_proj) (nth 0 (p_ents w_proj) {| e_name := []; e_attrs := []; e_parent := None; e_has_url := true |})).
+  split; [reflexivity|]. split; [split; reflexivity|].
+  simpl. eexists. split; [reflexivity|]. split; reflexivity.
+Qed.
+
+(* [[m:reset(bound)]]: a documented item kind that a module cannot have: the guide promises a
+   warning and no link, the code raises *)
+Definition w_ref2 : ref :=
+  {| r_name := s "m"; r_kind := None; r_child := Some (s "reset"); r_ckind := Some (s "bound") |}.
+Lemma child_kind_refuted :
+  exists p ctx r, kind_documented (r_kind r) = true /\ ckind_documented (r_ckind r) = true /\
+    convert_link p ctx r = RErr /\ spec_accepts p ctx r RErr = false /\
+    spec_accepts p ctx r RPlain = true.
+Proof. exists w_proj, None, w_ref2. repeat split; reflexivity. Qed.
+
+(* non-vacuity *)
+Definition w_ref0 : ref := {| r_name := s "Reset"; r_kind := None; r_child := None; r_ckind := None |}.
+Example ex_lookup_hyps :
+  r_child w_ref0 = None /\ r_ckind w_ref0 = None /\ kind_documented (r_kind w_ref0) = true /\
+  region_kind_scope (Some 1) w_ref0 = false /\ ctx_ok w_proj (Some 1) /\
+  urls_ok w_proj = true /\ ids_ok w_proj = true /\
+  convert_link w_proj (Some 1) w_ref0 = RLink 1 /\ convert_link w_proj None w_ref0 = RLink 2.
+Proof.
+  repeat split; try reflexivity.
+  eexists. split; [reflexivity|]. split; [split; reflexivity|].
+  simpl. eexists. split; [reflexivity|]. split; reflexivity.
+Qed.
+
+Example ex_absent_hyps :
+  (forall j, name_eqb (s "nosuch") (name_of w_proj j) = false) /\
+  ctx_shapes w_proj (Some 1) /\ kind_known (Some (s "Module")) /\
+  ref_equiv w_ref0 {| r_name := s "RESET"; r_kind := None; r_child := None; r_ckind := None |}.
+Proof.
+  split; [|split; [|split]].
+  - intros [|[|[|[|j]]]]; reflexivity.
+  - split; [reflexivity|]. simpl. reflexivity.
+  - eexists. reflexivity.
+  - repeat split; reflexivity.
 Qed.
